@@ -442,6 +442,9 @@ def flags(run, p):
         ['t.py', '-1', '--istagged'], ['t.py', '-0', '--tagged'], ['t.py', '-v', '--tagged'], ['t.py', '-1', 'TestX'],
         ['t.py', '-1v'], ['t.py', '-v1'], ['t.py', '-0', 'TestX.test_a'], ['t.py', '--write-all', '--tagged'], ['t.py', '--W'],
         ['t.py', '--wquiet', '--tagged'], ['t.py', '-1', '--write-all'], ['t.py', 'TestX', '--tagged'], ['t.py', '-q', '-1'],
+        # a tag option followed by another single-dash argument of its own
+        ['t.py', '-1', '-v'], ['t.py', '-1', '-q'], ['t.py', '-1', '-f'], ['t.py', '-1', '-W'], ['t.py', '-0', '-v'], ['t.py', '-0', '-1'],
+        ['t.py', '-1', '-0'], ['t.py', '-W', '-1'], ['t.py', '-1', '-v', 'TestX'], ['t.py', '-v', '-1', '-f'],
     ]
     n = 0
     for argv in cases:
